@@ -221,7 +221,7 @@ func expectFor(g *model.GenPkg, f *model.Field) (accExpect, error) {
 		T := tq(f.Var.Type())
 		e.has = []string{"return (len(" + L + ") != 0)", "return (len(" + L + ") > 0)"}
 		e.clear = []string{L + " = nil"}
-		e.get = []string{"if (len(" + L + ") == 0) {return " + ctor + "(" + V + "{})}; return " + ctor + "(" + V + "{" + vf + ": &" + L + "})"}
+		e.get = []string{"if (len(" + L + ") == 0) {return " + ctor + "(new(" + tq(vt) + "))}; return " + ctor + "(" + V + "{" + vf + ": &" + L + "})"}
 		accessor := ".List()"
 		if fd.IsMap() {
 			accessor = ".Map()"
@@ -251,8 +251,8 @@ func expectFor(g *model.GenPkg, f *model.Field) (accExpect, error) {
 			z := "protoreflect.ValueOfMessage(*" + MT + "(nil).ProtoReflect())"
 			e.get = oneofGetForms(O, W, "protoreflect.ValueOfMessage(%v."+F+".ProtoReflect())", z)
 			e.set = cross(O+" = &"+W+"{"+F+": ", unwrapV(k, "$2", T), "}")
-			fresh := "%t1 := &" + MT + "{}; " + O + " = &" + W + "{" + F + ": %t1}; return protoreflect.ValueOfMessage(%t1.ProtoReflect())"
-			fresh2 := "%t2 := &" + MT + "{}; " + O + " = &" + W + "{" + F + ": %t2}; return protoreflect.ValueOfMessage(%t2.ProtoReflect())"
+			fresh := "%t1 := new(" + MT + "); " + O + " = &" + W + "{" + F + ": %t1}; return protoreflect.ValueOfMessage(%t1.ProtoReflect())"
+			fresh2 := "%t2 := new(" + MT + "); " + O + " = &" + W + "{" + F + ": %t2}; return protoreflect.ValueOfMessage(%t2.ProtoReflect())"
 			e.mutable = []string{"if (" + O + " == nil) {" + fresh + "}; typeswitch %w := " + O + ".(type) {case *" + W + ": return protoreflect.ValueOfMessage(%w." + F + ".ProtoReflect()) | default: " + fresh2 + "}",
 				// the same decision with one assertion: held member -> its message, anything else (unset or another member) -> a new one
 				"if %v, %ok := " + O + ".(*" + W + "); %ok {return protoreflect.ValueOfMessage(%v." + F + ".ProtoReflect())}; " + fresh}
@@ -301,7 +301,7 @@ func expectFor(g *model.GenPkg, f *model.Field) (accExpect, error) {
 		if k == protoreflect.MessageKind {
 			MT := tq(T.(*types.Pointer).Elem())
 			e.mutable = []string{"if (" + L + " == nil) {" + L + " = new(" + MT + ")}; return protoreflect.ValueOfMessage(" + L + ".ProtoReflect())",
-				"if (" + L + " == nil) {" + L + " = &" + MT + "{}}; return protoreflect.ValueOfMessage(" + L + ".ProtoReflect())"}
+				"if (" + L + " == nil) {" + L + " = new(" + MT + ")}; return protoreflect.ValueOfMessage(" + L + ".ProtoReflect())"}
 			e.newField = []string{"return protoreflect.ValueOfMessage(new(" + MT + ").ProtoReflect())", "return protoreflect.ValueOfMessage(&" + MT + "{}.ProtoReflect())"}
 		} else {
 			e.mutable = []string{"panic"}
@@ -798,7 +798,10 @@ func runViews(c *core.Ctx, g *model.GenPkg) {
 					MT := tq(E.(*types.Pointer).Elem())
 					exp["Truncate"] = []string{"for %i := $1; (%i < len(" + B + ")); %i++ {" + B + "[%i] = nil}; " + B + " = " + B + "[:$1]"}
 					exp["AppendMutable"] = []string{"%t1 := new(" + MT + "); " + B + " = append(" + B + ", %t1); return protoreflect.ValueOfMessage(%t1.ProtoReflect())",
-						"%t1 := &" + MT + "{}; " + B + " = append(" + B + ", %t1); return protoreflect.ValueOfMessage(%t1.ProtoReflect())"}
+						"%t1 := new(" + MT + "); " + B + " = append(" + B + ", %t1); return protoreflect.ValueOfMessage(%t1.ProtoReflect())",
+						// composed from the view's own NewElement and Append (each checked against its form here): the
+						// element appended is the one wrapped by the value returned, as in protobuf-go's own list type
+						"%t1 := x.NewElement(); x.Append(%t1); return %t1"}
 				}
 				exp["NewElement"] = newValueForms(k, E)
 			} else {
